@@ -117,7 +117,7 @@ def handleExec (j : Json) : Except String Json := do
     | some .invalidRoute => "err:invalid-route"
     | some .validateBasic => "err:msg"
     | some .handler => "err:msg"
-  pure (Json.mkObj [("r", Json.str cls), ("effects", Json.arr (s'.map (fun i => Json.num i)).toArray),
+  pure (Json.mkObj [("r", Json.str cls), ("effects", Json.arr (s'.map (fun i => (Json.num (i : Nat) : Json))).toArray),
     ("icaSpent", Json.bool (!s'.isEmpty)), ("otherSpent", Json.bool false)])
 
 def stepJ (w : World) (j : Json) : World × Json :=
